@@ -564,3 +564,223 @@ func init() {
 		},
 	})
 }
+
+// ---------------------------------------------------------------- dstats
+// UnmarshalStatsJSON on arbitrary trees: a real encoding of a populated Stats
+// value, mutated (members replaced by values of another kind, renamed up to
+// case, duplicated, dropped, unknown members added, type / kind rewritten)
+
+func c38ParseTree(dec *json.Decoder) (c38T, error) {
+	tok, err := dec.Token()
+	if err != nil {
+		return c38T{}, err
+	}
+	switch t := tok.(type) {
+	case nil:
+		return tN(), nil
+	case bool:
+		return c38T{T: "b", B: t}, nil
+	case json.Number:
+		return tNum(t.String()), nil
+	case string:
+		return tS(t), nil
+	case json.Delim:
+		if t == '[' {
+			out := c38T{T: "a"}
+			for dec.More() {
+				x, err := c38ParseTree(dec)
+				if err != nil {
+					return c38T{}, err
+				}
+				out.A = append(out.A, x)
+			}
+			_, err := dec.Token()
+			return out, err
+		}
+		out := c38T{T: "o"}
+		for dec.More() {
+			k, err := dec.Token()
+			if err != nil {
+				return c38T{}, err
+			}
+			x, err := c38ParseTree(dec)
+			if err != nil {
+				return c38T{}, err
+			}
+			out.O = append(out.O, c38TKV{k.(string), x})
+		}
+		_, err := dec.Token()
+		return out, err
+	}
+	return c38T{}, fmt.Errorf("unexpected token %v", tok)
+}
+
+func c38TreeOf(b []byte) c38T {
+	dec := json.NewDecoder(bytes.NewReader(b))
+	dec.UseNumber()
+	t, err := c38ParseTree(dec)
+	if err != nil {
+		panic("c38TreeOf: " + err.Error())
+	}
+	return t
+}
+
+type c38DSIn struct {
+	Tree c38T `json:"tree"`
+}
+
+func c38DSRun(in c38DSIn) (V, Verdict) {
+	var b bytes.Buffer
+	in.Tree.text(&b)
+	got, err := webrtc.UnmarshalStatsJSON(b.Bytes())
+	if err != nil {
+		var se *json.SyntaxError
+		if errors.As(err, &se) {
+			return VS("harness"), Fail("harness-dstats-tree-not-valid-json", b.String())
+		}
+		cls := c38StatsErrClass(err)
+		return vResultErr(cls), Pass("rejected/"+cls, false)
+	}
+	obs := vResultOK(VL{VS(reflect.TypeOf(got).Name()), c38GvalV(reflect.ValueOf(got))})
+	// an accepted Stats value must itself survive its encoding, as the same Go type
+	enc, merr := json.Marshal(got)
+	var again webrtc.Stats
+	var uerr error
+	if merr == nil {
+		again, uerr = webrtc.UnmarshalStatsJSON(enc)
+	}
+	if merr != nil || uerr != nil || !reflect.DeepEqual(got, again) {
+		if c, ok := got.(webrtc.ICECandidateStats); ok && c.CandidateType == webrtc.ICECandidateType(0) && uerr != nil {
+			return obs, Fail("unknown-enum-marshals-to-unparseable-string/ICECandidateType",
+				fmt.Sprintf("%.200s decodes to an ICECandidateStats with CandidateType 0, which re-encodes to a rejected object: %v", b.String(), uerr))
+		}
+		return obs, Fail("decoded-stats-does-not-roundtrip/"+reflect.TypeOf(got).Name(),
+			fmt.Sprintf("%.300s decodes to %+v, re-encoded %.300s: err=%v/%v", b.String(), got, enc, merr, uerr))
+	}
+	return obs, Pass("accepted/"+reflect.TypeOf(got).Name(), true)
+}
+
+func c38DSMutate(r *Rand, t c38T) c38T {
+	if t.T != "o" {
+		return t
+	}
+	kv := append([]c38TKV(nil), t.O...)
+	pick := func() int { return r.Intn(len(kv)) }
+	for i, n := 0, r.Intn(4); i < n && len(kv) > 0; i++ {
+		switch r.Intn(9) {
+		case 0, 1: // a value of another kind
+			kv[pick()].V = c38DJOdd(r, 0)
+		case 2: // name up to case / near miss
+			k := pick()
+			kv[k].K = c38DJVariant(r, kv[k].K)
+		case 3: // duplicate member, other value
+			k := pick()
+			v := kv[r.Intn(len(kv))].V
+			if r.Bool() {
+				v = c38DJOdd(r, 0)
+			}
+			kv = append(kv, c38TKV{kv[k].K, v})
+		case 4: // drop
+			k := pick()
+			kv = append(kv[:k], kv[k+1:]...)
+		case 5: // unknown member
+			kv = append(kv, c38TKV{Pick(r, []string{"other", "typ", "kinds", "", "x-y"}), c38DJOdd(r, 0)})
+		case 6: // the dispatch members
+			for j := range kv {
+				if kv[j].K == "type" && r.Bool() {
+					kv[j].V = Pick(r, []c38T{tS(Pick(r, c38AllTags)), tN(), tNum("1"), tS("Codec")})
+				}
+				if kv[j].K == "kind" && r.Bool() {
+					kv[j].V = Pick(r, []c38T{tS(Pick(r, c38AllKinds)), tN(), tNum("1"), tA()})
+				}
+			}
+		case 7: // a member of a nested value
+			k := pick()
+			switch kv[k].V.T {
+			case "a":
+				kv[k].V.A = append(append([]c38T(nil), kv[k].V.A...), c38DJOdd(r, 1))
+			case "o":
+				kv[k].V.O = append(append([]c38TKV(nil), kv[k].V.O...), c38TKV{Pick(r, []string{"a", "messageInterleavingEnabled", "PARTIALRELIABILITYMODE", "cpu"}), c38DJOdd(r, 1)})
+			default:
+				kv[k].V = tNum(Pick(r, c38DJNums))
+			}
+		case 8: // swap two members
+			a, b := pick(), pick()
+			kv[a], kv[b] = kv[b], kv[a]
+		}
+	}
+	return tO(kv...)
+}
+
+func c38DSBase(r *Rand) c38T {
+	d := &c38Stats[r.Intn(len(c38Stats))]
+	in := c38StatsIn{GoType: d.name, Tag: Pick(r, d.tags), Kind: d.kind, Seed: r.U64(), Mode: 1,
+		Enums: c38StatsEnums(d, r, false)}
+	if r.Chance(1, 8) {
+		in.Mode = 2
+	}
+	v, _, _ := c38StatsBuild(in)
+	enc, err := json.Marshal(v.Interface())
+	if err != nil {
+		panic(err)
+	}
+	return c38TreeOf(enc)
+}
+
+func c38DSGen(r *Rand, _ int) c38DSIn {
+	if r.Chance(1, 40) {
+		return c38DSIn{c38DJOdd(r, 0)}
+	}
+	return c38DSIn{c38DSMutate(r, c38DSBase(r))}
+}
+
+func c38DSCorpus() []c38DSIn {
+	ty := func(s string) c38TKV { return c38TKV{"type", tS(s)} }
+	return []c38DSIn{
+		{tN()}, {tA()}, {tO()},
+		{tO(c38TKV{"type", tNum("1")})},                                    // holder: type is no string
+		{tO(c38TKV{"type", tN()})},                                         // null leaves ""
+		{tO(c38TKV{"TYPE", tS("codec")})},                                  // holder member up to case
+		{tO(ty("sender"), c38TKV{"kind", tNum("1")})},                      // kind holder fails
+		{tO(ty("codec"), c38TKV{"kind", tNum("1")})},                       // kind not looked at
+		{tO(ty("codec"), c38TKV{"clockRate", tNum("4294967295")}, c38TKV{"channels", tNum("255")})},
+		{tO(ty("codec"), c38TKV{"clockRate", tNum("4294967296")})},
+		{tO(ty("codec"), c38TKV{"channels", tNum("1.0")})},
+		{tO(ty("codec"), c38TKV{"timestamp", tNum("1E400")})},
+		{tO(ty("codec"), c38TKV{"timestamp", tNum("17")}, c38TKV{"timestamp", tN()})},
+		{tO(ty("stream"), c38TKV{"trackIds", tA(tS("a"), tS("b"))}, c38TKV{"trackIds", tA(tN())})},        // element re-use
+		{tO(ty("stream"), c38TKV{"trackIds", tA(tS("a"))}, c38TKV{"trackIds", tA()})},
+		{tO(ty("stream"), c38TKV{"trackIds", tA(tS("a"), tNum("1"))})},
+		{tO(ty("stream"), c38TKV{"trackIds", tN()})},
+		{tO(ty("inbound-rtp"), c38TKV{"perDscpPacketsReceived", tO(c38TKV{"b", tNum("2")}, c38TKV{"a", tNum("1")}, c38TKV{"b", tNum("3")})})},
+		{tO(ty("inbound-rtp"), c38TKV{"perDscpPacketsReceived", tO(c38TKV{"a", tNum("1")})}, c38TKV{"perDscpPacketsReceived", tO(c38TKV{"b", tNum("2")})})}, // maps merge
+		{tO(ty("inbound-rtp"), c38TKV{"perDscpPacketsReceived", tO(c38TKV{"a", tNum("-1")})})},
+		{tO(ty("outbound-rtp"), c38TKV{"qualityLimitationDurations", tO(c38TKV{"cpu", tNum("0.5")}, c38TKV{"", tNum("1e2")})})},
+		{tO(ty("sctp-transport"), c38TKV{"metadata", tO(c38TKV{"messageInterleavingEnabled", c38T{T: "b", B: true}})},
+			c38TKV{"metadata", tO(c38TKV{"partialReliabilityMode", tS("timed")})})},                      // pointee merges
+		{tO(ty("sctp-transport"), c38TKV{"metadata", tO()}, c38TKV{"metadata", tN()})},
+		{tO(ty("sctp-transport"), c38TKV{"metadata", tA()})},
+		{tO(ty("transport"), c38TKV{"iceRole", tS("controlling")}, c38TKV{"dtlsState", tS("bogus")}, c38TKV{"iceState", tN()})},
+		{tO(ty("transport"), c38TKV{"iceRole", tNum("1")})},
+		{tO(ty("remote-candidate"), c38TKV{"candidateType", tS("bogus")}, c38TKV{"port", tS("x")})},   // abort
+		{tO(ty("remote-candidate"), c38TKV{"port", tS("x")}, c38TKV{"candidateType", tS("bogus")})},   // saved, then abort
+		{tO(ty("local-candidate"), c38TKV{"candidateType", tS("host")}, c38TKV{"port", tNum("-2147483648")}, c38TKV{"priority", tNum("2147483648")})},
+		{tO(ty("local-candidate"), c38TKV{"candidateType", tS("host")})},
+		{tO(ty("data-channel"), c38TKV{"state", tS("open")}, c38TKV{"dataChannelIdentifier", tNum("-1")})},
+	}
+}
+
+func init() {
+	Register(Spec[c38DSIn]{
+		ID: "C38", Suite: "dstats", CoqImports: []string{"Model.SerialShape", "Model.SerialStats", "Check.C38"},
+		CoqType: "Model.SerialShape.jv Model.SerialStats.cnum", CoqRun: "Check.C38.run_dstats",
+		Quick: 500, Thorough: 6000,
+		Corpus: c38DSCorpus, Gen: c38DSGen, Run: c38DSRun,
+		Coq: func(in c38DSIn) string {
+			if !in.Tree.inModel() {
+				return ""
+			}
+			return in.Tree.coq()
+		},
+	})
+}
